@@ -328,3 +328,27 @@ pub fn get_tx_number(next_pn: u64, sent_with_keys: u64) -> u32 {
     core::mem::forget(sp);
     1
 }
+
+/// Native replay body for the E2 query `e2_packet_space_sent_tail_counter` (C03 / C12), on a real `PacketSpace`:
+/// the peer makes us send `n` (> 1000) packets that nobody has to acknowledge (ACK-only), acknowledges none of
+/// them for a long time and then all at once.  Tracking stays bounded (about 1000 packets), the counter of such
+/// packets equals what is tracked, and taking every tracked packet out again - what the late ACK does - does
+/// not underflow it.
+pub fn sent_tail_native(n: u16) -> u32 {
+    let now = crate::verif::mk_instant(50, 0).unwrap();
+    let mut space = PacketSpace::new(now);
+    let mk = |eliciting: bool| SentPacket { path_generation: 0, time_sent: now, size: 0, ack_eliciting: eliciting, largest_acked: None, retransmits: ThinRetransmits::default(), stream_frames: Default::default() };
+    assert!(space.sent(0, mk(true)).is_none());
+    for pn in 1..=n as u64 {
+        let _ = space.sent(pn, mk(false));
+        let tracked = (1..=pn).filter(|k| space.sent_packets.get(*k).is_some()).count() as u64;
+        assert!(tracked <= 1002, "{} un-ackable packets are being tracked", tracked);
+        assert!(space.unacked_non_ack_eliciting_tail == tracked, "counter says {} packets, {} are tracked", space.unacked_non_ack_eliciting_tail, tracked);
+    }
+    // the late ACK for everything
+    for pn in 0..=n as u64 {
+        let _ = space.take(pn);
+    }
+    assert!(space.unacked_non_ack_eliciting_tail == 0);
+    1
+}
